@@ -33,11 +33,18 @@ FeReasons(r) ==
     \* a finding with a fix is reported as a diff: line, no column (recorded as column 0)
     \cup (LET shown == ColoredShown(fe.colored)
               full == ExpectedColored(ref)
-              nocol == { <<t[1], t[2], 0, t[4]>> : t \in full } IN
-          (IF \A f \in RefFor("colored", ref) : ColoredOf(f) \in shown \/ <<f.rule, f.sp[1] + 1, 0, f.msg>> \in shown
-           THEN {} ELSE {<<"colored", "finding-missing">>})
+              nocol == { <<t[1], t[2], 0, t[4]>> : t \in full }
+          \* KNOWN FINDING C09/colored-omits-overlapping-diffs: findings of rules with a fix are shown as diffs, and a diff that
+          \* starts inside the range of the previous shown diff of the file is left out (print_diffs), e.g. the inner call of
+          \* foo(foo(10)) under rule foo($A) -> foo2($A); every other front end lists both
+              fixable(f) == \E k \in 1..Len(r.rules) : r.rules[k].id = f.rule /\ "hasfix" \in DOMAIN r.rules[k] /\ r.rules[k].hasfix
+              isShown(f) == ColoredOf(f) \in shown \/ <<f.rule, f.sp[1] + 1, 0, f.msg>> \in shown
+              missing == { f \in RefFor("colored", ref) : ~isShown(f) }
+              covered == \A f \in missing : fixable(f) /\ \E g \in RefFor("colored", ref) \ missing :
+                                                              fixable(g) /\ g # f /\ g.s <= f.s /\ f.s < g.e IN
+          (IF missing = {} THEN {} ELSE IF covered THEN {<<"colored", "known:colored-omits-overlapping-diffs">>} ELSE {<<"colored", "finding-missing">>})
           \cup (IF shown \subseteq full \cup nocol THEN {} ELSE {<<"colored", "finding-not-in-the-others">>})
-          \cup (IF Len(fe.colored) = Cardinality(RefFor("colored", ref)) THEN {} ELSE {<<"colored", "finding-count">>}))
+          \cup (IF Len(fe.colored) = Cardinality(RefFor("colored", ref) \ (IF covered THEN missing ELSE {})) THEN {} ELSE {<<"colored", "finding-count">>}))
     \cup Cmp("lsp", LspShown(fe.lsp), Len(fe.lsp), ExpectedLsp(r.rules, ref))
     \cup (IF r.exits.lsp.npub = 1 THEN {} ELSE {<<"lsp", "publish-count">>})
     \cup UNION { IF id \notin DOMAIN fe.test THEN {<<"test", "no-verdict">>}
